@@ -240,6 +240,10 @@ def run(ctx, chk, tier="quick"):
                 ok = False
                 why = ""
                 if isinstance(recv, ast.Call) and isinstance(recv.func, ast.Attribute) and recv.func.attr == "localize" \
+                        and isinstance(recv.func.value, ast.Name) and prov.get((g.fq, recv.func.value.id)) is None:
+                    chk.indeterminate("C11.O1", where, "the zone object `%s` that localizes the timestamp cannot be traced to pytz.timezone / zoneinfo.ZoneInfo" % recv.func.value.id)
+                    continue
+                if isinstance(recv, ast.Call) and isinstance(recv.func, ast.Attribute) and recv.func.attr == "localize" \
                         and isinstance(recv.func.value, ast.Name) and prov.get((g.fq, recv.func.value.id)) == "pytz":
                     inner = recv.args[0] if recv.args else None
                     ok = inner is not None and "strptime" in ast.unparse(inner)
